@@ -64,6 +64,9 @@ func (c *Ctx) add(v Verdict, construct string, pos token.Pos, steps int, facts [
 	o := &Obligation{Key: c.key(construct), Verdict: v, Pos: c.P.Pos(pos), Msg: fmt.Sprintf(format, args...), Facts: facts, Steps: steps}
 	c.Obls = append(c.Obls, o)
 	c.evals++
+	if os.Getenv("FRPSA_DUMP") != "" {
+		fmt.Fprintf(os.Stderr, "OBL %v %s at %s\n", v, o.Key, o.Pos)
+	}
 	return o
 }
 
